@@ -12,6 +12,7 @@ import (
 	"github.com/klev-dev/klevdb/pkg/index"
 	"github.com/klev-dev/klevdb/pkg/message"
 	"github.com/klev-dev/klevdb/pkg/segment"
+	"github.com/klev-dev/klevdb/pkg/verifhook"
 )
 
 type reader struct {
@@ -108,12 +109,14 @@ func (r *reader) Consume(offset, maxCount int64) (int64, []message.Message, erro
 	case position == -1:
 		return nextOffset, nil, nil
 	}
+	verifhook.Pause("reader.consume.after-index")
 
 	messages, err := r.getMessages()
 	if err != nil {
 		return OffsetInvalid, nil, err
 	}
 	defer r.messagesInuse.Add(-1)
+	verifhook.Pause("reader.consume.after-messages")
 
 	msgs, err := messages.Consume(position, maxPosition, maxCount)
 	if err != nil {
@@ -345,6 +348,7 @@ func (r *reader) getIndexMarked() (indexer, error) {
 		return ix, nil
 	}
 	r.indexMu.RUnlock()
+	verifhook.Pause("reader.index.before-load")
 
 	r.indexMu.Lock()
 	defer r.indexMu.Unlock()
@@ -409,6 +413,7 @@ func (r *reader) GC(unusedFor time.Duration) error {
 	}
 
 	r.closeIndex()
+	verifhook.Pause("reader.gc.after-index-drop")
 
 	r.messagesMu.Lock()
 	defer r.messagesMu.Unlock()
